@@ -287,11 +287,33 @@ def gen_read(rng, tier, malformed=False):
     raise RuntimeError("generator stuck")
 
 
+def gen_select(rng):
+    """text with one to three modules (distinct names, one a prefix of another), a name that exists or not, inference on/off"""
+    k = rng.choice([1, 2, 2, 3])
+    names = rng.sample(["top", "top2", "m_1", "c17", "top_b", "a"], k)
+    mods, bbs, parts = [], [], []
+    for nm in names:
+        m, b = gen_module(rng)
+        m["name"] = nm
+        mods.append(m)
+        for x in b:
+            if x not in bbs:
+                bbs.append(x)
+        parts.append(vu.render(rng, vu.toks_module(m), rng.choice([0.0, 0.15])))
+    r = rng.random()
+    name = rng.choice(names) if r < 0.6 else rng.choice(["nosuch", "to", "top3", "module"])
+    sep = rng.choice(["\n", "\n\n// next\n", "\n/* between */\n", "  "])
+    text = rng.choice(["", "// file\n", "\n\n"]) + sep.join(parts) + "\n"
+    return {"fn": "select", "modules": mods, "bbs": bbs, "text": text, "name": name, "infer": rng.random() < 0.5,
+            "kind": "select:" + ("named" if name in names else "absent")}
+
+
 def generate(rng, tier):
     n = 130 if tier == "quick" else 600
     out = [gen_read(rng, tier) for _ in range(n)]
     out += [gen_read(rng, tier, malformed=True) for _ in range(n // 3)]
     out += [gen_parse(rng) for _ in range(n // 2)]
+    out += [gen_select(rng) for _ in range(n // 4)]
     return out
 
 
@@ -334,6 +356,10 @@ def impl(case):
     if case["fn"] == "parse":
         return {"tree": lark_expr_tree(case["text"])}
     from circuitgraph.parsing import verilog as V
+    if case["fn"] == "select":
+        mname, infer = case["name"], case["infer"]
+    else:
+        mname, infer = case["module"]["name"], False
     seen = {}
     orig = V._VerilogCircuitGraphTransformer.__init__
 
@@ -344,7 +370,7 @@ def impl(case):
     try:
         bbs = [cg.BlackBox(n, i, o) for n, i, o in case["bbs"]]
         try:
-            c = cg.io.verilog_to_circuit(case["text"], case["module"]["name"], blackboxes=bbs)
+            c = cg.io.verilog_to_circuit(case["text"], mname, infer_module_name=infer, blackboxes=bbs)
             obs = {"ok": lib.dump_circuit(c)}
         except Exception as e:    # noqa: BLE001
             obs = {"exc": type(e).__name__}
@@ -368,12 +394,17 @@ def to_coq(case, obs):
         if t is not None and "?" in json.dumps(t):
             return None
         return f"CParse {cl(vu.ctok(x) for x in case['toks'])} " + ("None" if t is None else f"(Some {cgx(t)})")
+    if case["fn"] == "select":
+        return (f"CSelect {cs(case['name'])} {'T' if case['infer'] else 'F'} {csl(obs['reserved'])} {vu.cbbdefs(case['bbs'])} "
+                f"{cl(vu.cmodule(m) for m in case['modules'])} {vu.cres_circ(obs)}")
     return f"CRead {csl(obs['reserved'])} {vu.cbbdefs(case['bbs'])} {vu.cmodule(case['module'])} {vu.cres_circ(obs)}"
 
 
 def nontrivial(case, obs):
     if case["fn"] == "parse":
         return len(case["toks"]) >= 3
+    if case["fn"] == "select":
+        return len(case["modules"]) >= 2
     m = case["module"]
     ops = sum(vu.count_ops(it) for it in m["items"])
     insts = sum(len(it[2]) for it in m["items"] if it[0] == "inst")
@@ -383,6 +414,9 @@ def nontrivial(case, obs):
 def classify(case, obs):
     if case["fn"] == "parse":
         return ["parse:" + case["kind"] + (":accepted" if obs["tree"] is not None else ":rejected")]
+    if case["fn"] == "select":
+        return [case["kind"] + (":infer" if case["infer"] else ":exact") + (":ok" if "ok" in obs else ":" + obs["exc"]),
+                f"select:{len(case['modules'])}-modules"]
     m = case["module"]
     tags = ["read:" + case["kind"] + (":ok" if "ok" in obs else ":" + obs["exc"])]
     ids = set(vu.tree_ids(m["items"])) | set(m["ports"])
@@ -414,6 +448,8 @@ def finding_signature(case, obs):
 def mutate_case(rng, case):
     if case["fn"] == "parse":
         return gen_parse(rng)
+    if case["fn"] == "select":
+        return gen_select(rng)
     return gen_read(rng, "quick", malformed=(case.get("kind") != "valid"))
 
 
